@@ -127,8 +127,10 @@ class VComment(mutagen.Tags, list):
                     if is_valid_key(tag):
                         self.append((tag, value))
 
-            if framing and not bytearray(fileobj.read(1))[0] & 0x01:
-                raise VorbisUnsetFrameError("framing bit was unset")
+            if framing:
+                framing_byte = bytearray(fileobj.read(1))
+                if not framing_byte or not framing_byte[0] & 0x01:
+                    raise VorbisUnsetFrameError("framing bit was unset")
         except (cdata.error, TypeError):
             raise error("file is not a valid Vorbis comment")
 
